@@ -491,6 +491,17 @@ func (x *xexec) checkObs(full bool, when string) {
 	if g := x.live.GetIndex(); g != x.model {
 		x.violate("C02", "index-mismatch", when, fmt.Sprintf("GetIndex=%d model=%d", g, x.model))
 	}
+	// the serialised index a wallet would persist (first four bytes of GetSK)
+	oc2 := guard(func() {
+		if sk := x.live.GetSK(); len(sk) >= 4 {
+			if g := binary.BigEndian.Uint32(sk[:4]); g != x.model {
+				x.violate("C02", "index-mismatch", when+",GetSK", fmt.Sprintf("GetSK()[0:4]=%d model=%d", g, x.model))
+			}
+		}
+	})
+	if oc2.panicked {
+		x.violate("C02", "getter-panicked", when, "GetSK: "+oc2.pval)
+	}
 }
 
 func tau(idx, h uint32) uint32 {
